@@ -435,6 +435,8 @@ def gen_shape_program(rng, kind=None):
                 e["after_add"].append(["scale", rng.choice([2.0, 0.5])])
             if rng.random() < 0.3:
                 e["after_add"].append(["rotate", 0.5, [1.0, 2.0, 2.0], [0.0, 0.0, 0.0]])
+            if rng.random() < 0.35:
+                e["after_add"].append(["mirror", rng.choice([[0.0, 0.0, 1.0], [1.0, 1.0, 0.0], [2.0, 0.0, -1.0]]), [0.0, 0.5, 0.0]])
     prog = {"entities": ents, "merged": [], "default": None, "modify_pre": [], "modify_post": [], "geometry": [],
             "settings": [], "deleted": [], "debug": rng.random() < 0.5}
     if rng.random() < 0.5:
@@ -606,6 +608,8 @@ def run_program(prog, work):
                     ents[ei].scale(t[1])
                 elif t[0] == "rotate":
                     ents[ei].rotate(t[1], t[2], t[3])
+                elif t[0] == "mirror":
+                    ents[ei].mirror(t[1], t[2])
         for (ei, oi) in prog["deleted"]:
             mesh.delete(entity_ops(ents[ei])[oi])
         deleted = {(ei, oi) for (ei, oi) in prog["deleted"]}
